@@ -135,6 +135,20 @@ theorem stepLoc_leaveLit (l : Loc) (d : Nat) (h : LocInv l) :
     simp at ho
     rcases ho with ho | ho | ho | ho <;> subst ho <;> exact okOut_ev (by decide) (by omega) (by omega)
 
+theorem stepLoc_fnReset (l : Loc) (h : LocInv l) :
+    LocInv (stepLoc l .fnReset).1 ∧ ∀ o ∈ (stepLoc l .fnReset).2, okOut o = true := by
+  have hb := h.notBad
+  have hlt := h.lOff_le_tOff
+  have h1 := h.curMax; have h2 := h.maxN; have h3 := h.tFit; have h4 := h.sizes
+  have hc : l.lOff + l.cur ≤ l.lsize := by omega
+  simp only [stepLoc, hb, hc, if_true, Bool.false_eq_true, if_false]
+  refine ⟨⟨rfl, Nat.le_refl _, Nat.zero_le _, ?_, h4, Nat.le_refl _, ?_⟩, ?_⟩
+  · simp; omega
+  · simp [Chain]
+  · intro o ho
+    simp at ho
+    subst ho; exact okOut_ev (by decide) (by omega) (by omega)
+
 theorem stepLoc_inv (l : Loc) (e : Ev) (h : LocInv l) :
     LocInv (stepLoc l e).1 ∧ ∀ o ∈ (stepLoc l e).2, okOut o = true := by
   cases e with
@@ -145,6 +159,7 @@ theorem stepLoc_inv (l : Loc) (e : Ev) (h : LocInv l) :
   | leaveLit d => exact stepLoc_leaveLit l d h
   | argTypes k => exact stepLoc_argTypes l k h
   | cleanup => exact stepLoc_cleanup l h
+  | fnReset => exact stepLoc_fnReset l h
   | _ => simp only [stepLoc, h.notBad]; exact ⟨h, by simp⟩
 
 theorem runLoc_inv : ∀ (evs : List Ev) (l : Loc), LocInv l →
